@@ -8,15 +8,21 @@
 // scenario is executed from inside a driver coroutine: resumed directly (mode "normal", no ready
 // queue installed) or under coro_queue::install_queue_and_call (mode "coro").
 //
-// header: {"mode":"normal"|"coro", "maxh":N, "maxobj":M, "alt":0|1}
-// projection: {"blocks","burst":[ids],"dalloc","done","mode","nextH","queue":[ids],"resumed":[counts],
-//              "ret","sp":[{"cap","h":[ids],"heap","live","ty","val"}...]}
+// The driver's own handle (what `co_await cocls::self()` yields) has the id maxh+1; every suspension of
+// the driver is followed by a counter increment, so each of its resumptions is counted (dres).
+// The payload of the typed suspend points is int or Tracked (identity + moved-from flag): the attached
+// value is observed through a probe, never through the accessors under test.
+//
+// header: {"mode":"normal"|"coro", "maxh":N, "maxobj":M, "alt":0|1, "payload":"int"|"tracked"}
+// projection: {"blocks","burst":[ids],"dalloc","done","dres","mode","nextH","queue":[ids],"resumed":[counts],
+//              "ret","rmf","sp":[{"cap","h":[ids],"heap","live","mv","ty","val"}...]}
 //
 // Allocation accounting: suspend_point is the only code in the process that uses the *array* forms of
 // operator new/delete, so these are replaced and counted separately from the scalar forms (which the
 // harness itself, coroutine frames and the std::deque of the ready queue use).  REPLAY_COUNT_ALLOCS
 // of replay_common.h counts both forms together and is therefore not used here.
 #include <cocls/suspend_point.h>
+#include <cocls/self.h>
 #include "replay_common.h"
 
 #include <coroutine>
@@ -47,7 +53,25 @@ void operator delete(void *p, std::size_t) noexcept { operator delete(p); }
 
 using namespace rp;
 using SPV = cocls::suspend_point<void>;
-using SPI = cocls::suspend_point<int>;
+
+// payload whose move differs from its copy: identity + "this object has been moved from"
+struct Tracked {
+    int id = 0;
+    bool moved_from = false;
+    static inline long copies = 0;
+    Tracked(int i) : id(i) {}
+    Tracked(const Tracked &o) : id(o.id), moved_from(o.moved_from) { copies++; }
+    Tracked(Tracked &&o) noexcept : id(o.id), moved_from(o.moved_from) { o.moved_from = true; }
+    Tracked &operator=(const Tracked &o) { id = o.id; moved_from = o.moved_from; copies++; return *this; }
+    Tracked &operator=(Tracked &&o) noexcept {
+        if (this != &o) { id = o.id; moved_from = o.moved_from; o.moved_from = true; }
+        return *this;
+    }
+};
+static int idof(const int &v) { return v; }
+static int idof(const Tracked &v) { return v.id; }
+static bool mfof(const int &) { return false; }
+static bool mfof(const Tracked &v) { return v.moved_from; }
 
 // protected representation, read through pointers to members named via a derived class
 struct Probe : SPV {
@@ -57,8 +81,10 @@ struct Probe : SPV {
     static std::size_t capacity(const SPV &s) { return heap(s) ? (s.*(&Probe::_ext))._capacity : 0; }
     static void *const *array(const SPV &s) { return heap(s) ? (s.*(&Probe::_ext))._handles : (s.*(&Probe::_local))._handles; }
 };
-
-struct World;
+template <typename X>
+struct ProbeT : cocls::suspend_point<X> {
+    static const X &value_of(const cocls::suspend_point<X> &s) { return s.*(&ProbeT::value); }
+};
 
 struct Dummy {
     struct promise_type {
@@ -71,16 +97,19 @@ struct Dummy {
     std::coroutine_handle<promise_type> h;
 };
 
-struct Slot {
-    alignas(SPI) unsigned char buf[sizeof(SPI)];
-    bool live = false;
-    bool typed = false;
-    SPV &base() { return typed ? static_cast<SPV &>(*reinterpret_cast<SPI *>(buf)) : *reinterpret_cast<SPV *>(buf); }
-    SPI &ti() { return *reinterpret_cast<SPI *>(buf); }
-    SPV &tv() { return *reinterpret_cast<SPV *>(buf); }
-};
-
+template <typename X>
 struct World {
+    using SPT = cocls::suspend_point<X>;
+
+    struct Slot {
+        alignas(SPT) alignas(SPV) unsigned char buf[sizeof(SPT) > sizeof(SPV) ? sizeof(SPT) : sizeof(SPV)];
+        bool live = false;
+        bool typed = false;
+        SPV &base() { return typed ? static_cast<SPV &>(*reinterpret_cast<SPT *>(buf)) : *reinterpret_cast<SPV *>(buf); }
+        SPT &ti() { return *reinterpret_cast<SPT *>(buf); }
+        SPV &tv() { return *reinterpret_cast<SPV *>(buf); }
+    };
+
     int maxh = 0, maxobj = 0, alt = 0;
     std::vector<std::coroutine_handle<>> hs;      // 1..maxh
     std::map<void *, int> id_of;
@@ -90,12 +119,15 @@ struct World {
     void *driver_addr = nullptr;
     int nextH = 0;
     long ret = 0;
+    bool rmf = false;
     long dalloc = 0;
+    long dres = 0;                // resumptions of the driver itself during the current step
     long base_new = 0, base_del = 0;
     bool done = false;
     std::string trouble;          // replayer-side observation that is not part of the projection
     long finish_at = -1;
     bool failed = false;
+    bool parked_end = false;
 
     static Dummy body(World *w, int id) {
         for (;;) {
@@ -126,22 +158,24 @@ struct World {
         for (int i = 1; i <= maxh; i++) if (hs[i]) hs[i].destroy();
     }
 
+    int self_id() const { return maxh + 1; }
+
     int id(std::coroutine_handle<> c) const {
         if (!c) return -2;
-        if (c.address() == driver_addr) return 0;
+        if (c.address() == driver_addr) return self_id();
         auto it = id_of.find(c.address());
         return it == id_of.end() ? -1 : it->second;
     }
 
     long blocks() const { return (cnt::arr_new - base_new) - (cnt::arr_del - base_del); }
 
-    void begin_step() { burst.clear(); ret = 0; dalloc = 0; }
+    void begin_step() { burst.clear(); ret = 0; rmf = false; dalloc = 0; dres = 0; }
 
     // a call into the library: new[] executed inside is attributed to the step; outside coroutine
     // mode (nothing is pushed to the ready queue's deque) no other allocation may happen either
     template <typename Fn>
-    void lib(Fn &&fn, bool may_use_queue = false) {
-        bool strict = !cocls::coro_queue::is_active() && !may_use_queue;
+    void lib(Fn &&fn) {
+        bool strict = !cocls::coro_queue::is_active();
         long a0 = cnt::arr_new, s0 = cnt::sc_new;
         fn();
         dalloc += cnt::arr_new - a0;
@@ -160,6 +194,7 @@ struct World {
         m.set("burst", J::list(burst.begin(), burst.end()));
         m.set("dalloc", dalloc);
         m.set("done", done);
+        m.set("dres", dres);
         m.set("mode", cocls::coro_queue::is_active() ? "coro" : "normal");
         m.set("nextH", nextH);
         J q = J::list();
@@ -171,11 +206,14 @@ struct World {
         m.set("queue", q);
         m.set("resumed", J::list(resumed.begin() + 1, resumed.end()));
         m.set("ret", ret);
+        m.set("rmf", rmf);
         J l = J::list();
         for (int k = 1; k <= maxobj; k++) {
             Slot &s = slots[k];
             J o = J::map();
             J h = J::list();
+            int v = 0;
+            bool mv = false;
             if (s.live) {
                 const SPV &b = s.base();
                 std::size_t n = Probe::count(b);
@@ -183,21 +221,19 @@ struct World {
                 for (std::size_t i = 0; i < n && i < 4096; i++) h.push(id(std::coroutine_handle<>::from_address(arr[i])));
                 o.set("cap", Probe::capacity(b));
                 o.set("heap", Probe::heap(b));
-                int v = 0;
                 if (s.typed) {
-                    v = int(s.ti());                                   // operator X()
-                    const SPI &c = s.ti();
-                    int v2 = c.operator const int();                   // operator const X() const
-                    if (v2 != v) o.set("const_value_differs", v2);
+                    const X &val = ProbeT<X>::value_of(s.ti());     // the member itself, no accessor involved
+                    v = idof(val);
+                    mv = mfof(val);
                 }
-                o.set("val", v);
                 // public observers must agree with the representation
                 if (b.size() != n || b.empty() != (n == 0) || b.await_ready() != (n == 0)) o.set("size_mismatch", (long) b.size());
             } else {
                 o.set("cap", 0);
                 o.set("heap", false);
-                o.set("val", 0);
             }
+            o.set("val", v);
+            o.set("mv", mv);
             o.set("h", h);
             o.set("live", s.live);
             o.set("ty", s.live && s.typed);
@@ -210,6 +246,13 @@ struct World {
 
     std::coroutine_handle<> next_handle() { return hs[++nextH]; }
 
+    // slot k := suspend point move-constructed from `src` (used for co_await self())
+    void construct_from(Slot &s, bool t, int v, SPV &&src) {
+        lib([&] { if (t) new (s.buf) SPT(std::move(src), X(v)); else new (s.buf) SPV(std::move(src)); });
+        s.live = true;
+        s.typed = t;
+    }
+
     // returns false when the action is not known / not executable
     bool exec(const Step &st, std::string &err) {
         const std::string &a = st.name;
@@ -219,10 +262,10 @@ struct World {
             if (s.live) { err = "slot in use"; return false; }
             int v = st.iarg(0);
             if (a == "ConstructEmpty") {
-                lib([&] { if (t) new (s.buf) SPI(v); else new (s.buf) SPV(); });
+                lib([&] { if (t) new (s.buf) SPT(X(v)); else new (s.buf) SPV(); });
             } else {
                 std::coroutine_handle<> h = next_handle();
-                lib([&] { if (t) new (s.buf) SPI(h, v); else new (s.buf) SPV(h); });
+                lib([&] { if (t) new (s.buf) SPT(h, X(v)); else new (s.buf) SPV(h); });
             }
             s.live = true;
             s.typed = t;
@@ -232,14 +275,14 @@ struct World {
             const std::string &kind = st.sarg(2);
             if (d.live || !s.live) { err = "bad slots"; return false; }
             if (kind == "same") {
-                lib([&] { if (s.typed) new (d.buf) SPI(std::move(s.ti())); else new (d.buf) SPV(std::move(s.tv())); });
+                lib([&] { if (s.typed) new (d.buf) SPT(std::move(s.ti())); else new (d.buf) SPV(std::move(s.tv())); });
                 d.typed = s.typed;
             } else if (kind == "void") {
                 lib([&] { new (d.buf) SPV(std::move(s.ti())); });
                 d.typed = false;
             } else {
                 int v = st.iarg(0);
-                lib([&] { if (s.typed) new (d.buf) SPI(std::move(s.ti()), v); else new (d.buf) SPI(std::move(s.tv()), v); });
+                lib([&] { if (s.typed) new (d.buf) SPT(std::move(s.ti()), X(v)); else new (d.buf) SPT(std::move(s.tv()), X(v)); });
                 d.typed = true;
             }
             d.live = true;
@@ -268,13 +311,23 @@ struct World {
             if (d.typed && !s.typed) { err = "typed = untyped does not compile"; return false; }
             if (d.typed) lib([&] { d.ti() = std::move(s.ti()); });
             else with(s, [&](auto &os) { lib([&] { d.tv() = std::move(os); }); });
+        } else if (a == "Read") {
+            Slot &s = slots[st.iarg(0)];
+            if (!s.live || !s.typed) { err = "read of an untyped slot"; return false; }
+            if (st.sarg(1) == "conv") {
+                lib([&] { X r = s.ti(); ret = idof(r); rmf = mfof(r); });                     // operator X()
+            } else {
+                const SPT &c = s.ti();
+                lib([&] { X r = c; ret = idof(r); rmf = mfof(r); });                          // operator const X() const
+            }
         } else if (a == "Pop") {
             Slot &s = slots[st.iarg(0)];
             std::coroutine_handle<> c;
             with(s, [&](auto &o) { lib([&] { c = o.pop(); }); });
             if (c.address() == std::noop_coroutine().address()) ret = 0;
             else ret = id(c);
-            if (ret > 0) c.resume();       // the caller's duty (symmetric transfer in real use)
+            // the caller's duty (symmetric transfer in real use); its own handle it just drops
+            if (ret > 0 && ret != self_id()) c.resume();
         } else if (a == "Clear") {
             Slot &s = slots[st.iarg(0)];
             with(s, [&](auto &o) { lib([&] { if (alt) o.suspend_now(); else o.clear(); }); });
@@ -289,7 +342,7 @@ struct World {
 
     void destroy(Slot &s) {
         if (!s.live) return;
-        lib([&] { if (s.typed) s.ti().~SPI(); else s.tv().~SPV(); });
+        lib([&] { if (s.typed) s.ti().~SPT(); else s.tv().~SPV(); });
         s.live = false;
         s.typed = false;
     }
@@ -306,7 +359,11 @@ struct Driver {
     std::coroutine_handle<promise_type> h;
 };
 
-static Driver drive(World &w, const Scenario &sc, Reporter &rep) {
+// Every suspension of the driver is followed by `w.dres++`, and the driver never reaches its final
+// suspend point: each resumption - also one that nobody was entitled to - is counted and harmless.
+template <typename X>
+static Driver drive(World<X> &w, const Scenario &sc, Reporter &rep) {
+    using SPT = typename World<X>::SPT;
     for (std::size_t k = 0; k < sc.steps.size() && !w.failed; k++) {
         const Step &st = sc.steps[k];
         w.begin_step();
@@ -314,22 +371,43 @@ static Driver drive(World &w, const Scenario &sc, Reporter &rep) {
             w.finish_at = (long) k;
             break;
         } else if (st.name == "CoAwait") {
-            Slot &s = w.slots[st.iarg(0)];
+            auto &s = w.slots[st.iarg(0)];
             if (!s.live) { rep.error(k, "slot not live"); w.failed = true; break; }
             long a0 = cnt::arr_new;
+            bool susp;
             if (s.typed) {
-                SPI &o = s.ti();
-                int &v = co_await o;          // await_resume of a typed suspend point returns the value
-                w.ret = v;
+                SPT &o = s.ti();
+                susp = !o.await_ready();
+                X &v = co_await o;            // await_resume of a typed suspend point returns the value
+                w.ret = idof(v);
+                w.rmf = mfof(v);
             } else {
                 SPV &o = s.tv();
+                susp = !o.await_ready();
                 co_await o;
                 w.ret = 0;
             }
+            if (susp) w.dres++;
             w.dalloc += cnt::arr_new - a0;
+        } else if (st.name == "ConstructSelf" || st.name == "AddSelf") {
+            long a0 = cnt::arr_new;
+            SPV me = co_await cocls::self();          // the documented way to get the own handle (self.h)
+            w.dalloc += cnt::arr_new - a0;
+            auto &s = w.slots[st.iarg(0)];
+            if (st.name == "ConstructSelf") {
+                if (s.live) { rep.error(k, "slot in use"); w.failed = true; break; }
+                w.construct_from(s, st.sarg(1) == "TRUE", st.iarg(0), std::move(me));
+            } else {
+                if (!s.live) { rep.error(k, "slot not live"); w.failed = true; break; }
+                w.with(s, [&](auto &o) { w.lib([&] { o << std::move(me); }); });
+            }
         } else if (st.name == "Pause") {
             if (!cocls::coro_queue::is_active()) { rep.error(k, "pause outside coroutine mode"); w.failed = true; break; }
             co_await cocls::pause();
+            w.dres++;
+        } else if (st.name == "Yield") {
+            co_await std::suspend_always{};   // resumed through the own handle waiting in the ready queue
+            w.dres++;
         } else {
             std::string err;
             if (!w.exec(st, err)) { rep.error(k, err); w.failed = true; break; }
@@ -338,29 +416,40 @@ static Driver drive(World &w, const Scenario &sc, Reporter &rep) {
     }
     if (w.failed) {
         // the library has gone wrong: abandon the objects (their arrays may hold garbage) and stay
-        // harmlessly resumable instead of reaching the final suspend point
+        // harmlessly resumable
         for (;;) co_await std::suspend_always{};
     }
-    // whatever is still alive dies with the driver's scope (Finish, or the end of a truncated path)
-    for (int k = 1; k <= w.maxobj; k++) w.destroy(w.slots[k]);
+    // the end of the history (Finish, or a truncated path): suspend for good; what is still alive
+    // is destroyed from outside, which may resume the driver once more through its own handle
+    w.parked_end = true;
+    for (;;) {
+        co_await std::suspend_always{};
+        w.dres++;
+    }
 }
 
+template <typename X>
 static void run(const Scenario &sc, Reporter &rep) {
-    World w;
+    World<X> w;
     w.init(sc);
-    Driver d = drive(w, sc, rep);
+    Driver d = drive<X>(w, sc, rep);
     w.driver_addr = d.h.address();
     std::size_t last = sc.steps.empty() ? 0 : sc.steps.size() - 1;
-    if (sc.hdr.at("mode").as_str("normal") == "coro") {
+    bool coro = sc.hdr.at("mode").as_str("normal") == "coro";
+    if (coro) {
         cocls::coro_queue::install_queue_and_call([&] { d.h.resume(); });
     } else {
         d.h.resume();
     }
     if (!w.failed) {
-        if (!d.h.done()) {
+        if (!w.parked_end) {
             rep.diverge(last, "the awaiting (driver) coroutine was never resumed again");
             w.failed = true;
         } else {
+            // the driver is suspended; the ready queue has been flushed.  Scope exit of the objects.
+            auto scope_exit = [&] { for (int k = 1; k <= w.maxobj; k++) w.destroy(w.slots[k]); };
+            if (coro) cocls::coro_queue::install_queue_and_call(scope_exit);
+            else scope_exit();
             w.done = true;
             if (w.finish_at >= 0) {
                 if (!rep.check((std::size_t) w.finish_at, w.project())) w.failed = true;
@@ -388,5 +477,8 @@ static void run(const Scenario &sc, Reporter &rep) {
 
 int main() {
     (void) cocls::coro_queue::queue_impl::instance._queue.size();   // construct the thread-local deque now
-    return replay_main(std::cin, [](const Scenario &sc, Reporter &rep) { run(sc, rep); });
+    return replay_main(std::cin, [](const Scenario &sc, Reporter &rep) {
+        if (sc.hdr.at("payload").as_str("int") == "tracked") run<Tracked>(sc, rep);
+        else run<int>(sc, rep);
+    });
 }
